@@ -124,7 +124,13 @@ func runOidcHistory(g *gwInstance, idp *fakeIdP, ops []oidcOp, tag string) (stri
 				cb.claims["preferred_username"] = o.user
 			}
 			idp.setCode(code, cb)
-			resp, _, err := b.get(g.base() + "/callback?state=" + url.QueryEscape(state) + "&code=" + url.QueryEscape(code))
+			extra := ""
+			if o.cb == "refuse" || o.cb == "noidtoken" {
+				// the request itself carries a genuine ID token of this provider for this client: only what the
+				// provider hands over in exchange for the code counts
+				extra = "&id_token=" + url.QueryEscape(idp.idToken(codeBehaviour{kind: "ok", accessToken: at, claims: map[string]interface{}{"preferred_username": o.user}}))
+			}
+			resp, _, err := b.get(g.base() + "/callback?state=" + url.QueryEscape(state) + "&code=" + url.QueryEscape(code) + extra)
 			if err != nil {
 				outs = append(outs, "neterr")
 			} else {
